@@ -77,9 +77,13 @@ StreamVector(r) ==
                  ELSE IF r.sw # <<>> /\ r.sw[1] < i THEN "notattempted" ELSE "ok"],
    delivered |-> res.delivered, final |-> res.final]
 
+\* real transport kinds this case applies to, each with the results admitted for it (one, or two for an ambiguous kind)
+SetToSeq(S) == LET RECURSIVE F(_) F(T) == IF T = {} THEN <<>> ELSE LET e == CHOOSE e \in T : TRUE IN <<e>> \o F(T \ {e}) IN F(S)
 IdVector(r) ==
-  LET x == IdResult(r.tr, r.inbox, r.dl, "mine") IN
-  [kind |-> "id", transport |-> r.tr, inbox |-> r.inbox, dl |-> r.dl, res |-> x.res, idx |-> x.idx]
+  LET x == IdResult(r.tr, r.inbox, r.dl, "mine")
+      ks == { k \in Kinds : r.tr \in KindRules[k] /\ (Cardinality(KindRules[k]) = 1 \/ r.tr = "dgram") } IN
+  [kind |-> "id", transport |-> r.tr, inbox |-> r.inbox, dl |-> r.dl, res |-> x.res, idx |-> x.idx,
+   kinds |-> SetToSeq({ [k |-> k, admitted |-> SetToSeq({ IdResult(t, r.inbox, r.dl, "mine") : t \in KindRules[k] })] : k \in ks })]
 
 Out == IF Mode = "id" THEN Emit(IdVector(v)) ELSE Emit(StreamVector(v))
 =============================================================================
